@@ -63,6 +63,16 @@ def decoders(F):
     return roots, seen
 
 
+def callees_of(f):
+    out = set()
+    for b in f["blocks"]:
+        t = b["term"]
+        if t["k"] == "call" and "fn" in t["func"].get("const", {}):
+            fi = t["func"]["const"]["fn"]
+            out.add((fi.get("res") or {}).get("path", fi["path"]))
+    return out
+
+
 def is_decoder_ret(f):
     return bool(re.match(r"^std::result::Result<\(.*, usize\), mqtt::result_code::MqttError>$", f["locals"][0]))
 
@@ -252,6 +262,90 @@ def check(run, F, tier):
                 r5.ok(key + "/qos3")
             else:
                 r5.violation(key + "/qos3", "%s::publish::parse does not reject QoS 3" % ver)
+
+    # ------------------------------------------------------------------ R7
+    r7 = run.rule("C04-R7", "every property list a v5.0 parser accepts was checked by the validator the builder of that kind uses, and is the list stored", floor=14)
+    PP = "PropertiesParse>::parse"
+
+    def root_of(t):
+        """strip projections / derefs down to the producing term"""
+        while True:
+            if t[0] == "sym":
+                t = t[1]
+            elif t[0] == "field":
+                t = t[1]
+            elif t[0] == "init" and t[1] and t[1][0] == "D":
+                t = t[1][1]
+            elif t[0] == "call" and len(t[2]) >= 1 and re.search(r"(::deref|::as_ref|::as_slice|::borrow)$", t[1]):
+                t = t[2][0]
+            elif t[0] == "ref" and t[1] and t[1][0] == "D":
+                t = t[1][1]
+            else:
+                return t
+    def roots_in(v):
+        out, work = set(), [v]
+        while work:
+            x = work.pop()
+            if x[0] == "agg":
+                work.extend(x[3])          # Some(props)
+            elif x[0] in ("sym", "ref"):
+                out.add(repr(root_of(x)))
+        return out
+    for f in sorted(roots, key=lambda f: f["path"]):
+        m = re.match(r"^mqtt::packet::v5_0::(\w+)::(Generic\w+::<PacketIdType>|\w+)::parse$", f["path"])
+        if not m:
+            continue
+        kind = m.group(1)
+        if not any(c.endswith(PP) for c in callees_of(f)):
+            continue
+        ex = explore.Explorer(F, inline_pred=lambda ex, callee, info: callee.get("kind") == "Closure")
+        ps = ex.run(f["path"])
+        exp = lambda t: conn.expand_all(ex.interned_rev, t)
+        seen = {}
+        for p in ps:
+            if p.kind != "return" or not (p.ret and p.ret[0] == "agg" and p.ret[2] == "Ok"):
+                continue
+            calls = [e for e in p.effects if e[0] == "call"]
+            stored_roots = set()
+            pk = p.ret[3][0][1][0] if p.ret[3][0][0] == "tup" else p.ret[3][0]
+            if pk[0] == "agg":
+                for fv in pk[3]:
+                    stored_roots |= roots_in(exp(fv))
+            n_pp = 0
+            for i, e in enumerate(calls):
+                if not e[1].endswith(PP):
+                    continue
+                n_pp += 1
+                r = repr(exp(e[4][1]))
+                vs = sorted({c[1] for c in calls[i + 1:] if re.search(r"::validate_\w+$", c[1]) and any(r in roots_in(exp(a)) for a in c[3])})
+                k = (n_pp, tuple(vs), r in stored_roots)
+                seen.setdefault(k, p)
+        if not seen:
+            r7.violation(kind, "%s: no accepting path parses a property list (anchor lost)" % f["path"])
+            continue
+        # builder-side validators of the same kind
+        bval = set()
+        for bp, bf in F.fns.items():
+            if re.match(r"^mqtt::packet::v5_0::%s::\w*Builder(::<\w+>)?::(validate|build)$" % kind, bp):
+                bval |= {c for c in callees_of(bf) if re.search(r"::validate_\w+$", c)}
+        for (n_pp, vs, stored), p in sorted(seen.items()):
+            key = "%s#%d" % (kind, n_pp)
+            if not vs:
+                r7.violation(key, "v5_0::%s::parse accepts property list #%d without passing it to a validate_* function (the builder of this kind validates with %s)"
+                             % (kind, n_pp, sorted(x.split("::")[-1] for x in bval)), conn.path_summary(p), site="%s:%s" % (f["file"], f["line"]))
+            elif not stored:
+                r7.violation(key, "v5_0::%s::parse validates property list #%d but stores a different value in the packet" % (kind, n_pp),
+                             conn.path_summary(p), site="%s:%s" % (f["file"], f["line"]))
+            elif not set(vs) <= bval:
+                r7.violation(key, "v5_0::%s::parse validates with %s, which the builder of this kind does not use (%s)"
+                             % (kind, [x.split("::")[-1] for x in vs], sorted(x.split("::")[-1] for x in bval)), site="%s:%s" % (f["file"], f["line"]))
+            else:
+                r7.ok(key, {"validators": [x.split("::")[-1] for x in vs]})
+        pvals = {v for (_, vs, _) in seen for v in vs}
+        missing = {b for b in bval if b.endswith("_properties")} - pvals
+        if missing:
+            r7.violation(kind + "|builder-only", "the v5_0::%s builder validates with %s but parse never applies it to a parsed list"
+                         % (kind, sorted(x.split("::")[-1] for x in missing)), site="%s:%s" % (f["file"], f["line"]))
 
     # ------------------------------------------------------------------ R2
     r2 = run.rule("C04-R2", "every loop in a decoder terminates: iterator-driven, or a cursor that strictly increases towards the input length", floor=10)
